@@ -556,6 +556,12 @@ theorem C17_overflow_resync (dec : Bytes → Option V) (c : Cfg) (s : WState) (v
   rw [run_append, run_single] at this
   exact this
 
+/-- F15p: the fallback poll (`WithPollInterval`) is a repeating ticker, so the select's ticker arm keeps producing
+wake-ups for as long as the loop runs: `C17_wake_is_run` / `C17_converges_ok` then apply to a change that produces no
+file-system event at all (the config's directory removed and recreated), whenever it happens. -/
+theorem C17_poll_keeps_waking : Facts.watchPollRepeats = true := by
+  decide
+
 /-- The other arms: ticker and Reload fall through to the read, an event does exactly when its name passes the filter,
 a closed channel or a done context ends the loop (whose deferred calls close the watcher). -/
 theorem C17_select_arms (c : Cfg) (resolved : Path) (n : Path) :
